@@ -2,98 +2,11 @@
 
 package ref
 
-import (
-	"bytes"
-	"sort"
-)
-
 // C06TrieRootHashedFrom is the state root of m when every value of at least minHashedLen bytes is
 // replaced by its 32-byte BLAKE2b hash (hashed-value node variants) and shorter values are inline.
 // With minHashedLen = 33 it is the state-version-1 root of the specification; other thresholds are
 // NOT spec roots - C06 uses them only to name the exact shape of a root mismatch (a deviating
 // inline/hashed threshold), never as an expectation.
 func C06TrieRootHashedFrom(m map[string][]byte, minHashedLen int) []byte {
-	es := make([]entry, 0, len(m))
-	for k, v := range m {
-		es = append(es, entry{nibbles([]byte(k)), v})
-	}
-	sort.Slice(es, func(i, j int) bool { return bytes.Compare(es[i].nk, es[j].nk) < 0 })
-	if len(es) == 0 {
-		return Blake256([]byte{0})
-	}
-	return Blake256(c06EncodeNode(es, 0, minHashedLen))
-}
-
-func c06EncodeNode(es []entry, depth int, minHashedLen int) []byte {
-	if len(es) == 1 {
-		pk := es[0].nk[depth:]
-		hashed := len(es[0].v) >= minHashedLen
-		var out []byte
-		if hashed {
-			out = header(0b0010_0000, 3, len(pk))
-		} else {
-			out = header(0b0100_0000, 2, len(pk))
-		}
-		out = append(out, packNibbles(pk)...)
-		if hashed {
-			out = append(out, Blake256(es[0].v)...)
-		} else {
-			out = append(out, Compact(uint64(len(es[0].v)))...)
-			out = append(out, es[0].v...)
-		}
-		return out
-	}
-	first, last := es[0].nk, es[len(es)-1].nk
-	cp := depth
-	for cp < len(first) && cp < len(last) && first[cp] == last[cp] {
-		cp++
-	}
-	pk := first[depth:cp]
-	var value []byte
-	hasValue := false
-	rest := es
-	if len(es[0].nk) == cp {
-		hasValue, value = true, es[0].v
-		rest = es[1:]
-	}
-	hashed := hasValue && len(value) >= minHashedLen
-	var out []byte
-	switch {
-	case !hasValue:
-		out = header(0b1000_0000, 2, len(pk))
-	case hashed:
-		out = header(0b0001_0000, 4, len(pk))
-	default:
-		out = header(0b1100_0000, 2, len(pk))
-	}
-	out = append(out, packNibbles(pk)...)
-	var bitmap uint16
-	var children [16][]entry
-	for _, e := range rest {
-		i := e.nk[cp]
-		bitmap |= 1 << i
-		children[i] = append(children[i], e)
-	}
-	out = append(out, byte(bitmap), byte(bitmap>>8))
-	if hasValue {
-		if hashed {
-			out = append(out, Blake256(value)...)
-		} else {
-			out = append(out, Compact(uint64(len(value)))...)
-			out = append(out, value...)
-		}
-	}
-	for i := 0; i < 16; i++ {
-		if children[i] == nil {
-			continue
-		}
-		enc := c06EncodeNode(children[i], cp+1, minHashedLen)
-		mv := enc
-		if len(enc) >= 32 {
-			mv = Blake256(enc)
-		}
-		out = append(out, Compact(uint64(len(mv)))...)
-		out = append(out, mv...)
-	}
-	return out
+	return TrieRootMixed(m, func(k string, v []byte) bool { return len(v) >= minHashedLen })
 }
